@@ -74,6 +74,19 @@ def read(text):
         return ("syntax", e)
 
 
+def read_with_caller_eof(text):
+    """the same text read the way basilisp.core/read-string and read do: the caller supplies its own end-of-input
+    value (core passes the keyword :eofthrow). The value chosen by the caller must not change what is read."""
+    s = S()
+    sentinel = s["kw"].keyword("eofthrow")
+    try:
+        return ("forms", list(s["reader"].read_str(text, eof=sentinel)))
+    except s["reader"].UnexpectedEOFError as e:
+        return ("eof", e)
+    except s["reader"].SyntaxError as e:
+        return ("syntax", e)
+
+
 def only_data(form, depth=0):
     """None if the form is made of Lisp data only, else a description of the foreign object"""
     s = S()
@@ -97,6 +110,15 @@ def only_data(form, depth=0):
     if isinstance(form, s["TaggedLiteral"]):
         return only_data(form.form, depth + 1)
     return f"{type(form).__module__}.{type(form).__name__} object {form!r:.60}"
+
+
+def _same_forms(a, b):
+    if len(a) != len(b):
+        return False
+    try:
+        return all(type(x) is type(y) and (x == y or repr(x) == repr(y)) for x, y in zip(a, b))
+    except Exception:  # noqa - exotic forms that cannot be compared are not this relation's business
+        return True
 
 
 def text_class(text):
@@ -131,6 +153,16 @@ def check_text(rec, text, origin, expect_valid=False, spans=False, count=True):
     else:
         if val.line is None or val.col is None:
             raise Violation("syntax-error-without-location", case, f"read_str({text!r}) raised {type(val).__name__} without line/col: {val}")
+    # metamorphic: a caller-supplied end-of-input value (as core's read-string/read/read-seq pass) changes nothing
+    try:
+        kind2, val2 = read_with_caller_eof(text)
+    except RecursionError:
+        kind2, val2 = kind, val
+    except Exception as e:  # noqa
+        raise Violation(f"reader-raises:{type(e).__name__}:caller-eof", case, f"read_str({text!r}, eof=:eofthrow) raised {type(e).__name__}: {str(e)[:200]}")
+    if kind2 != kind or (kind == "forms" and len(val) != len(val2)):
+        raise Violation("caller-eof-value-changes-reading", case,
+                        f"read_str({text!r}) gave {kind} {repr(val)[:120]} but with a caller-supplied eof value {kind2} {repr(val2)[:120]}")
     v = scanner.scan(text)
     if v.kind == "incomplete" and kind != "eof":
         got = "forms " + repr(val)[:80] if kind == "forms" else f"a plain SyntaxError ({val})"
